@@ -317,3 +317,44 @@ Definition write_tmessage (T : tmsg_table) (t : N) (v : tvalue)
     | Some p => if max_msg_body <? blen p then None else Some (be_enc 2 t ++ p)
     end
   end.
+
+(* ---- onion failure packets (lnwire/onion_error.go) ----
+   DecodeFailureMessage / EncodeFailureMessage = 2-byte failure code, then the
+   payload layout of that code: the shape of read_message / write_message over
+   a table of failure codes.
+   DecodeFailure: u16 length, message, u16 pad length, padding, nothing after
+   it, length + pad length >= 256.  EncodeFailure: message of at most 256 bytes,
+   padded with zeros to exactly 256. *)
+Definition failure_len : N := 256.       (* lnwire.FailureMessageLength *)
+
+Definition decode_failure (oc : bytes -> bool) (F : msg_table) (b : bytes)
+  : option (N * list fval) :=
+  match read_be 2 b with
+  | None => None
+  | Some (fl, r) =>
+    match take fl r with
+    | None => None
+    | Some (d, r1) =>
+      match read_be 2 r1 with
+      | None => None
+      | Some (pl, r2) =>
+        match take pl r2 with
+        | None => None
+        | Some (_, r3) =>
+          match r3 with
+          | _ :: _ => None
+          | [] => if fl + pl <? failure_len then None else read_message oc F d
+          end
+        end
+      end
+    end
+  end.
+
+Definition encode_failure (F : msg_table) (code : N) (vs : list fval) : option bytes :=
+  match write_message F code vs with
+  | None => None
+  | Some m =>
+    if failure_len <? blen m then None
+    else Some (be_enc 2 (blen m) ++ m ++ be_enc 2 (failure_len - blen m) ++
+               repeat 0 (N.to_nat (failure_len - blen m)))
+  end.
